@@ -1,5 +1,4 @@
 """C06 — properties and events are delivered on the span they were attached to."""
-import known as K
 import proggen
 import seqcheck
 
@@ -19,15 +18,10 @@ D10 = """0 spawn
 
 
 def knobs(r, i):
-    return {"cycle_density": 1 + i % 3, "threads": 1 + i % 3, "cancelable": i % 2 == 0, "multi": i % 3 == 0, "unsampled": i % 3 == 0 or i % 7 == 0, "prebuilt": i % 2 == 1}
-
-
-_d14 = K.d14_known("C06")
+    return {"cycle_density": 1 + i % 3, "threads": 1 + i % 3, "cancelable": i % 2 == 0, "multi": i % 3 == 0, "unsampled": i % 3 == 0 or i % 7 == 0, "prebuilt": i % 2 == 1, "stepped": i % 3 == 1}
 
 
 def known(lines, oracle, msg):
-    if _d14(lines, oracle, msg):
-        return "id=D14"
     # D10: one span set delivered twice into one trace — attachments all go to the first copy
     if oracle in ("attachments", "copies"):
         spec = proggen.spec_of(lines)
@@ -60,7 +54,6 @@ MIXED = """0 spawn
 
 def extra(r):
     return [("kf/D10-witness", D10, ["no_panic", "attachments"]),
-            K.d14_case("C06", ["no_panic", "attachments"]),
             # a span with a sampled and an unsampled parent: its one delivered copy carries every attachment
             ("mixed/sampled-and-unsampled-parents", MIXED, ["no_panic", "attachments", "tree", "exactly_once"])]
 
